@@ -404,7 +404,7 @@ func init() {
 }
 
 func GeneratedMixed() {
-	p := gen.Profile{Ifs: true, Ctl: true, Loops: true, Lets: true, Assigns: true, Calls: true, Conds: 2, Vals: 3, Pres: 3, Posts: 3, Leafs: 2, Iters: 3}
+	p := gen.Profile{Ifs: true, Ctl: true, Loops: true, Lets: true, Assigns: true, Bare: true, NoKey: true, Conds: 1, Vals: 2, Pres: 2, Posts: 2, Leafs: 3, Iters: 2}
 	if vrt.Tier() > 0 {
 		p = gen.Profile{Ifs: true, Elifs: true, Ctl: true, Bare: true, Loops: true, Lets: true, Assigns: true, Calls: true, Unknown: true, Conds: 4, Vals: 4, Iters: 5}
 	}
